@@ -31,7 +31,11 @@
    Normalised (round 3, to survive behaviour-preserving rewrites): local names bound exactly once to a
    pure alias expression are replaced by that expression in all texts (and vanish from the provenance);
    else-guards are in negation normal form; in keyexchange.py / x509.py / handshakehelpers.py a branch
-   ending in return / raise guards the statements after the `if`; provenance bindings are a sorted set. *)
+   ending in return / raise guards the statements after the `if`; provenance bindings are a sorted set.
+   Re-synchronised with /repo 7ffe769: new compare row (TLS 1.3 client: CertificateVerify scheme must be in
+   _sigHashesToList(settings, certList=serverCertChain) -> r_valid check in client13); assignments of
+   self.session are rows now (d08ab2e binds self.session = session BEFORE the Finished exchange of a resumed
+   handshake so that a failure invalidates it); guard text of the server chain assignment (edfc2c2). *)
 From Coq Require Import List String.
 Import ListNotations.
 Open Scope string_scope.
@@ -59,6 +63,9 @@ Definition expected_sites : list (string * string * string * string * string * s
   ("tlsconnection.py", "TLSConnection._handshakeClientAsyncHelper", "assign",
    "clientCertChain = result",
    "", "-");
+  ("tlsconnection.py", "TLSConnection._handshakeClientAsyncHelper", "assign",
+   "self.session = Session()",
+   "", "-");
   ("tlsconnection.py", "TLSConnection._handshakeClientAsyncHelper", "create",
    "self.session.create(srp=srpUsername, client=clientCertChain, server=serverCertChain)",
    "", "-");
@@ -80,6 +87,9 @@ Definition expected_sites : list (string * string * string * string * string * s
   ("tlsconnection.py", "TLSConnection._clientTLS13Handshake", "compare",
    "signature_scheme not in offered_ext.sigalgs",
    "not sr_psk && not cert_ext", "alert:illegal_parameter");
+  ("tlsconnection.py", "TLSConnection._clientTLS13Handshake", "compare",
+   "signature_scheme not in self._sigHashesToList(settings, certList=serverCertChain, version=(3, 4))",
+   "not sr_psk && not cert_ext", "alert:illegal_parameter");
   ("tlsconnection.py", "TLSConnection._clientTLS13Handshake", "check",
    "method(certificate_verify.signature, signature_context, pad_type, hash_name, salt_len) {method<-publicKey.hashAndVerify | publicKey.verify; signature_context<-KeyExchange.calcVerifyBytes((3, 4), srv_cert_verify_hh, s...; pad_type<-None | SignatureScheme.getPadding(scheme); hash_name<-'intrinsic' | HashAlgorithm.toRepr(signature_scheme[0]) | SignatureScheme.getHash(scheme); salt_len<-None | getattr(hashlib, hash_name)().digest_size; certificate_verify<-result; publicKey<-delegated_credential.cred.pub_key | result}",
    "not sr_psk", "raise:TLSDecryptionFailed");
@@ -92,11 +102,20 @@ Definition expected_sites : list (string * string * string * string * string * s
   ("tlsconnection.py", "TLSConnection._clientTLS13Handshake", "check",
    "ver_func(signature, signature_context, pad_type, hash_name, salt_len) {ver_func<-privateKey.hashAndVerify | privateKey.verify; signature<-sig_func(signature_context, pad_type, hash_name, salt_len); signature_context<-KeyExchange.calcVerifyBytes((3, 4), self._handshake_hash,... | KeyExchange.calcVerifyBytes((3, 4), srv_cert_verify_hh, s...; pad_type<-None | SignatureScheme.getPadding(scheme); hash_name<-'intrinsic' | HashAlgorithm.toRepr(signature_scheme[0]) | SignatureScheme.getHash(scheme); salt_len<-None | getattr(hashlib, hash_name)().digest_size}",
    "certificate_request && clientCertChain and privateKey", "alert:internal_error");
+  ("tlsconnection.py", "TLSConnection._clientTLS13Handshake", "assign",
+   "self.session = Session()",
+   "", "-");
   ("tlsconnection.py", "TLSConnection._clientTLS13Handshake", "create",
    "self.session.create(srp=None, client=clientCertChain, server=certificate.cert_chain if certificate else None, delegated_credential=delegated_credential)",
    "", "-");
+  ("tlsconnection.py", "TLSConnection._clientResume", "assign",
+   "self.session = session",
+   "session and (session.sessionID or session.tls_1_0_tickets) and serverHello.session_id a...", "-");
   ("tlsconnection.py", "TLSConnection._clientResume", "check",
    "self._getFinished(session.masterSecret, session.cipherSuite, expect_new_session_ticket=ticket_announced) {ticket_announced<-serverHello.getExtension(ExtensionType.session_ticket) is...}",
+   "session and (session.sessionID or session.tls_1_0_tickets) and serverHello.session_id a...", "-");
+  ("tlsconnection.py", "TLSConnection._clientResume", "assign",
+   "self.session = session",
    "session and (session.sessionID or session.tls_1_0_tickets) and serverHello.session_id a...", "-");
   ("tlsconnection.py", "TLSConnection._clientKeyExchange", "assign",
    "serverCertChain = None",
@@ -120,11 +139,14 @@ Definition expected_sites : list (string * string * string * string * string * s
    "clientCertChain = result",
    "cipherSuite not in CipherSuite.srpAllSuites && cipherSuite in CipherSuite.certSuites or cipherSuite in CipherSuite.dheCertSuites or ci...", "-");
   ("tlsconnection.py", "TLSConnection._handshakeServerAsyncHelper", "assign",
+   "self.session = Session()",
+   "", "-");
+  ("tlsconnection.py", "TLSConnection._handshakeServerAsyncHelper", "assign",
    "serverCertChain = cert_chain",
-   "cipherSuite in CipherSuite.certAllSuites or cipherSuite in CipherSuite.ecdheEcdsaSuites", "-");
+   "cipherSuite in CipherSuite.certAllSuites or cipherSuite in CipherSuite.ecdheEcdsaSuites...", "-");
   ("tlsconnection.py", "TLSConnection._handshakeServerAsyncHelper", "assign",
    "serverCertChain = None",
-   "not (cipherSuite in CipherSuite.certAllSuites or cipherSuite in CipherSuite.ecdheEcdsaSuites)", "-");
+   "not (cipherSuite in CipherSuite.certAllSuites or cipherSuite in CipherSuite.ecdheEcdsaSuites ...", "-");
   ("tlsconnection.py", "TLSConnection._handshakeServerAsyncHelper", "assign",
    "srpUsername = None",
    "", "-");
@@ -177,6 +199,9 @@ Definition expected_sites : list (string * string * string * string * string * s
    "cl_finished.verify_data != cl_verify_data",
    "", "alert:decrypt_error");
   ("tlsconnection.py", "TLSConnection._serverTLS13Handshake", "assign",
+   "self.session = Session()",
+   "", "-");
+  ("tlsconnection.py", "TLSConnection._serverTLS13Handshake", "assign",
    "client_cert_chain = resumed_client_cert_chain",
    "not client_cert_chain and resumed_client_cert_chain", "-");
   ("tlsconnection.py", "TLSConnection._serverTLS13Handshake", "create",
@@ -185,8 +210,14 @@ Definition expected_sites : list (string * string * string * string * string * s
   ("tlsconnection.py", "TLSConnection._ticket_to_session", "create",
    "session.create(srp=ticket.srp_username.decode('utf-8') if ticket.srp_username else '', client=ticket.client_cert_chain, server=None)",
    "", "-");
+  ("tlsconnection.py", "TLSConnection._serverGetClientHello", "assign",
+   "self.session = session",
+   "clientHello.session_id and sessionCache or (ticket_ext and ticket_ext.ticket) && session", "-");
   ("tlsconnection.py", "TLSConnection._serverGetClientHello", "check",
    "self._getFinished(session.masterSecret, session.cipherSuite) {session<-None | cached | self._ticket_to_session(settings, ticket_ext) | sessionCache[clientHello.session_id]}",
+   "clientHello.session_id and sessionCache or (ticket_ext and ticket_ext.ticket) && session", "-");
+  ("tlsconnection.py", "TLSConnection._serverGetClientHello", "assign",
+   "self.session = session",
    "clientHello.session_id and sessionCache or (ticket_ext and ticket_ext.ticket) && session", "-");
   ("tlsconnection.py", "TLSConnection._server_select_certificate", "compare",
    "client_sigalgs is not None",
@@ -230,6 +261,9 @@ Definition expected_sites : list (string * string * string * string * string * s
   ("tlsconnection.py", "TLSConnection._pickServerKeyExchangeSig", "compare",
    "schemeID in hashAndAlgsExt.sigalgs",
    "loop (certs, key) && loop schemeID", "continue");
+  ("tlsrecordlayer.py", "TLSRecordLayer.__init__", "assign",
+   "self.session = None",
+   "", "-");
   ("tlsrecordlayer.py", "TLSRecordLayer._handle_pha", "check",
    "KeyExchange.calcVerifyBytes((3, 4), handshake_context, sig_scheme, None, None, None, prf_name, b'client') {handshake_context<-self._first_handshake_hashes.copy(); sig_scheme<-getFirstMatching(avail_sig_algs, cert_request.supported_s... | getattr(SignatureScheme, scheme); prf_name<-'sha256' | 'sha384'}",
    "cert.x509List and p_key", "-");
